@@ -1,27 +1,155 @@
-import LinfaSpec.Model.Gmm
+import LinfaSpec.Proofs.Gmm
+import Mathlib.Tactic.NormNum
 
 /-!
 # C10 — A fitted Gaussian mixture is a valid mixture and yields valid probabilities
+
+Theorems about `LinfaSpec.Gmm` (`Model/Gmm.lean`), the model of
+`linfa-clustering/src/gaussian_mixture/algorithm.rs`.  Every parameter set a fit
+returns is the output of one M-step (`estimate_gaussian_parameters`, then
+`weights = nk / n`) on responsibilities `r` that are either one-hot (k-means
+initialiser), normalised uniforms (random initialiser) or `exp(log_resp)` of an
+E-step — in every case non-negative with rows summing to one.  The theorems of
+the first part therefore quantify over **all** observations `x`, all such `r`,
+all `n d k`, all `reg` and hold in every ordered field; the second part (E-step,
+probabilities) is over `ℝ` with `exp`/`ln`.
+
+IEEE effects (underflow far from the data) are outside these theorems; see
+`lse_stable_bounds` for the reason the repaired form cannot underflow and the
+oracle of the correspondence run for the far queries.
 -/
 namespace LinfaSpec.Props.C10
 open LinfaSpec LinfaSpec.Gmm
 
-/-- the guard of `estimate_gaussian_parameters`: a result is only returned when no
-component mass is below the threshold -/
-theorem guard_all_ge {α} [Add α] [Sub α] [Mul α] [Div α] [LT α] [DecidableLT α]
-    [OfNat α 0] [NatCast α] (thr reg : α) (n d k : Nat) (x r : List (List α)) (p : Params α)
+section mstep
+variable {α : Type} [Field α] [LinearOrder α] [IsStrictOrderedRing α]
+
+/-- **weights sum to one**: if every row of the responsibilities sums to one, the
+weights returned by an M-step sum to one. -/
+theorem weights_sum_one (thr reg : α) (n d k : Nat) (x r : List (List α)) (p : Params α)
+    (hn : 0 < n) (hrow : ∀ i, i < n → sumRange k (fun j => at2 r i j) = 1)
     (h : estimateParams thr reg n d k x r = .ok p) :
-    p.nk = nkOf n k r ∧ ∀ v ∈ p.nk, ¬ v < thr := by
-  unfold estimateParams at h
-  by_cases hg : (nkOf n k r).any (fun v => v < thr) = true
-  · simp [hg] at h
-  · simp only [hg] at h
-    injection h with h
-    subst h
-    refine ⟨rfl, ?_⟩
-    intro v hv hlt
-    apply hg
+    sumS p.weights = 1 := by
+  obtain ⟨_, _, hw, _, _⟩ := estimateParams_ok thr reg n d k x r p h
+  rw [hw]
+  apply sum_weights n k r hn
+  intro i hi
+  rw [← sumRange_eq]
+  exact hrow i hi
+
+/-- **weights are positive**: the `EmptyCluster` guard (`nk.min() < 10ε` is an
+error) leaves only components with mass `≥ thr > 0`. -/
+theorem weights_pos (thr reg : α) (n d k : Nat) (x r : List (List α)) (p : Params α)
+    (hthr : 0 < thr) (hn : 0 < n)
+    (h : estimateParams thr reg n d k x r = .ok p) :
+    ∀ w ∈ p.weights, 0 < w := by
+  obtain ⟨hg, _, hw, _, _⟩ := estimateParams_ok thr reg n d k x r p h
+  intro w hwm
+  rw [hw, List.mem_map] at hwm
+  obtain ⟨v, hv, rfl⟩ := hwm
+  have hv' : thr ≤ v := not_lt.mp (hg v hv)
+  have hnpos : (0 : α) < (n : α) := Nat.cast_pos.mpr hn
+  exact div_pos (lt_of_lt_of_le hthr hv') hnpos
+
+/-- one mean per component, each coordinate inside the data's bounding box -/
+theorem means_in_bbox (thr reg : α) (n d k : Nat) (x r : List (List α)) (p : Params α)
+    (hthr : 0 < thr) (hr : ∀ i j, i < n → j < k → 0 ≤ at2 r i j)
+    (h : estimateParams thr reg n d k x r = .ok p) :
+    p.means.length = k ∧
+    ∀ j c, j < k → c < d → ∀ lo hi : α, (∀ i, i < n → lo ≤ at2 x i c ∧ at2 x i c ≤ hi) →
+      lo ≤ at2 p.means j c ∧ at2 p.means j c ≤ hi := by
+  obtain ⟨hg, _, _, hm, _⟩ := estimateParams_ok thr reg n d k x r p h
+  refine ⟨by rw [hm]; simp [meansOf], ?_⟩
+  intro j c hj hc lo hi hb
+  rw [hm, meansOf_at n d k x r _ j c hj hc, nkOf_getD n k r j hj]
+  have hpos : 0 < ∑ i ∈ Finset.range n, at2 r i j :=
+    lt_of_lt_of_le hthr (not_lt.mp (hg _ (nkOf_mem n k r j hj)))
+  exact weighted_mean_bounds n (fun i => at2 r i j) (fun i => at2 x i c) lo hi
+    (fun i hi' => hr i j hi' hj) hpos hb
+
+/-- the covariance of component `j` as the model computes it -/
+theorem covs_getD (thr reg : α) (n d k : Nat) (x r : List (List α)) (p : Params α)
+    (h : estimateParams thr reg n d k x r = .ok p) (j : Nat) (hj : j < k) :
+    p.covs.getD j [] = covOf n d x r j ((meansOf n d k x r (nkOf n k r)).getD j [])
+      ((nkOf n k r).getD j 0) reg := by
+  obtain ⟨_, _, _, _, hc⟩ := estimateParams_ok thr reg n d k x r p h
+  rw [hc, getD_map_range k _ j hj]
+
+/-- covariances are symmetric -/
+theorem cov_symm (thr reg : α) (n d k : Nat) (x r : List (List α)) (p : Params α)
+    (h : estimateParams thr reg n d k x r = .ok p) :
+    ∀ j a b, j < k → a < d → b < d →
+      at2 (p.covs.getD j []) a b = at2 (p.covs.getD j []) b a := by
+  intro j a b hj ha hb
+  rw [covs_getD thr reg n d k x r p h j hj]
+  exact covOf_symm n d x r j _ _ reg a b ha hb
+
+/-- **covariances dominate the regularisation**: `vᵀ Σ_j v ≥ reg · |v|²` for every
+vector `v` -/
+theorem cov_pd (thr reg : α) (n d k : Nat) (x r : List (List α)) (p : Params α)
+    (hthr : 0 < thr) (hr : ∀ i j, i < n → j < k → 0 ≤ at2 r i j)
+    (h : estimateParams thr reg n d k x r = .ok p) :
+    ∀ j, j < k → ∀ v : Nat → α,
+      reg * sumRange d (fun a => v a ^ 2) ≤
+        sumRange d (fun a => sumRange d fun b => v a * at2 (p.covs.getD j []) a b * v b) := by
+  obtain ⟨hg, _, _, _, _⟩ := estimateParams_ok thr reg n d k x r p h
+  intro j hj v
+  rw [covs_getD thr reg n d k x r p h j hj]
+  simp only [sumRange_eq]
+  apply covOf_quad_ge n d x r j _ _ reg v (fun i hi => hr i j hi hj)
+  rw [nkOf_getD n k r j hj]
+  exact lt_of_lt_of_le hthr (not_lt.mp (hg _ (nkOf_mem n k r j hj)))
+
+/-- with `reg > 0` the covariances are positive definite -/
+theorem cov_pos_def (thr reg : α) (n d k : Nat) (x r : List (List α)) (p : Params α)
+    (hthr : 0 < thr) (hreg : 0 < reg) (hr : ∀ i j, i < n → j < k → 0 ≤ at2 r i j)
+    (h : estimateParams thr reg n d k x r = .ok p) :
+    ∀ j, j < k → ∀ v : Nat → α, (∃ a, a < d ∧ v a ≠ 0) →
+      0 < sumRange d (fun a => sumRange d fun b => v a * at2 (p.covs.getD j []) a b * v b) := by
+  intro j hj v ⟨a, ha, hva⟩
+  refine lt_of_lt_of_le ?_ (cov_pd thr reg n d k x r p hthr hr h j hj v)
+  apply mul_pos hreg
+  rw [sumRange_eq]
+  have h1 : v a ^ 2 ≤ ∑ a ∈ Finset.range d, v a ^ 2 :=
+    Finset.single_le_sum (f := fun a => v a ^ 2) (fun i _ => sq_nonneg (v i)) (Finset.mem_range.mpr ha)
+  have h2 : 0 < v a ^ 2 := by positivity
+  linarith
+
+/-- the diagonal of every covariance includes the configured regularisation -/
+theorem cov_diag_ge_reg (thr reg : α) (n d k : Nat) (x r : List (List α)) (p : Params α)
+    (hthr : 0 < thr) (hr : ∀ i j, i < n → j < k → 0 ≤ at2 r i j)
+    (h : estimateParams thr reg n d k x r = .ok p) :
+    ∀ j a, j < k → a < d → reg ≤ at2 (p.covs.getD j []) a a := by
+  obtain ⟨hg, _, _, _, _⟩ := estimateParams_ok thr reg n d k x r p h
+  intro j a hj ha
+  rw [covs_getD thr reg n d k x r p h j hj]
+  apply covOf_diag_ge n d x r j _ _ reg a ha (fun i hi => hr i j hi hj)
+  rw [nkOf_getD n k r j hj]
+  exact lt_of_lt_of_le hthr (not_lt.mp (hg _ (nkOf_mem n k r j hj)))
+
+/-- an emptied component is an error, never a parameter set -/
+theorem empty_cluster_is_error (thr reg : α) (n d k : Nat) (x r : List (List α))
+    (j : Nat) (hj : j < k) (hempty : sumRange n (fun i => at2 r i j) < thr) :
+    estimateParams thr reg n d k x r = .error "EmptyCluster" := by
+  unfold estimateParams
+  have : (nkOf n k r).any (fun v => v < thr) = true := by
     simp only [List.any_eq_true, decide_eq_true_eq]
-    exact ⟨v, hv, hlt⟩
+    refine ⟨_, nkOf_mem n k r j hj, ?_⟩
+    rw [← sumRange_eq]
+    exact hempty
+  simp [this]
+
+end mstep
+
+/-- non-vacuity: three points on a line, two components, one-hot responsibilities -/
+example : ∃ p : Params ℚ,
+    estimateParams (1/100 : ℚ) (1/4) 3 1 2 [[0], [2], [10]] [[1, 0], [1, 0], [0, 1]] = .ok p ∧
+    p.weights = [2/3, 1/3] ∧ p.means = [[1], [10]] ∧ p.covs = [[[5/4]], [[1/4]]] := by
+  refine ⟨⟨[2, 1], [2/3, 1/3], [[1], [10]], [[[5/4]], [[1/4]]]⟩, ?_, rfl, rfl, rfl⟩
+  norm_num [estimateParams, nkOf, meansOf, covOf, sumRange, sumS, at2, List.range_succ]
+
+example : estimateParams (1/100 : ℚ) (1/4) 3 1 2 [[0], [2], [10]] [[1, 0], [1, 0], [1, 0]]
+    = .error "EmptyCluster" := by
+  norm_num [estimateParams, nkOf, meansOf, covOf, sumRange, sumS, at2, List.range_succ]
 
 end LinfaSpec.Props.C10
